@@ -4,9 +4,11 @@
 W=$1; S=$2; L=$3
 cd "$W" || exit 2
 git checkout -q -- .
-/venv/bin/python $S/${L}_demo.py >/dev/null 2>&1; clean=$?
-git apply $S/${L}.diff || { echo "$(basename $W) $L: APPLY-FAIL"; exit 2; }
-/venv/bin/python $S/${L}_demo.py >/dev/null 2>&1; mut=$?
-suite=$(/venv/bin/python -m pytest -ra -q -p no:cacheprovider --timeout=900 --continue-on-collection-errors 2>&1 | tail -1)
+rm -rf _seed; cp -r $S _seed
+/venv/bin/python _seed/${L}_demo.py >/dev/null 2>&1; clean=$?
+git apply _seed/${L}.diff || { echo "$(basename $W) $L: APPLY-FAIL"; rm -rf _seed; exit 2; }
+/venv/bin/python _seed/${L}_demo.py >/dev/null 2>&1; mut=$?
+suite=$(/venv/bin/python -m pytest -ra -q -p no:cacheprovider --timeout=900 --continue-on-collection-errors --ignore=_seed 2>&1 | tail -1)
 git checkout -q -- .
+rm -rf _seed
 echo "$(basename $W) $L: demo clean=$clean mutated=$mut suite: $suite"
